@@ -203,9 +203,10 @@ func (d *SevData) validateSections() error {
 	allocatedTypeAddress := make(map[uint32]uint32)
 
 	// An internal sortable type to check for overlap
+	// The end is start+length, which exceeds 32 bits for sections that reach (or pass) 4GiB.
 	type sectionCheck struct {
-		start uint32
-		end   uint32
+		start uint64
+		end   uint64
 		kind  uint32
 	}
 	checkData := make([]sectionCheck, len(d.snpMetadataSections))
@@ -232,8 +233,8 @@ func (d *SevData) validateSections() error {
 				SevSectionTypeToString(section.Kind), section.Length)
 		}
 		checkData[i] = sectionCheck{
-			start: section.Address,
-			end:   section.Address + section.Length,
+			start: uint64(section.Address),
+			end:   uint64(section.Address) + uint64(section.Length),
 			kind:  section.Kind}
 	}
 
